@@ -1,5 +1,9 @@
 """C03: regenerate `paeth_predictor` (pdfminer/utils.py), the filter-name tuples
-`LITERALS_*_DECODE` / `LITERAL_CRYPT` and the `_DECODE_ERRORS` class tuple (pdfminer/pdftypes.py) as Lean."""
+`LITERALS_*_DECODE` / `LITERAL_CRYPT` and the `_DECODE_ERRORS` class tuple (pdfminer/pdftypes.py) as Lean;
+round 6: the constants and straight-line arithmetic of lzw.py (`LZWDecoder.__init__`/`feed`: Clear/EOD codes,
+first free table index, code-width schedule), runlength.py (`rldecode`: EOD, literal/repeat tests and counts)
+and of `utils.apply_png_predictor` / `apply_tiff_predictor` (row length, bytes per pixel, supported
+BitsPerComponent, the per-filter-type `raw_x` formulas) as definitions over `Nat`."""
 import ast
 import os
 from . import py2lean as P
@@ -17,8 +21,507 @@ def lit_name(e: ast.expr) -> bytes:
     raise P.Untranslatable("not a LIT(\"...\") call: " + ast.dump(e)[:80])
 
 
+# ---------------------------------------------------------------------------
+# round 6: expressions over non-negative Python ints -> Lean `Nat`
+
+def nat_expr(e: ast.expr) -> str:
+    """Python int expression -> Lean Nat term.  `-` becomes truncated subtraction (every use below is
+    on a branch where the left operand is the larger one); `& (2^k - 1)` becomes `% 2^k`."""
+    if isinstance(e, ast.Constant) and isinstance(e.value, int) and not isinstance(e.value, bool) and e.value >= 0:
+        return str(e.value)
+    if isinstance(e, ast.Name):
+        return e.id
+    if isinstance(e, ast.Attribute) and isinstance(e.value, ast.Name) and e.value.id == "self":
+        return e.attr
+    if isinstance(e, ast.BinOp):
+        if isinstance(e.op, ast.BitAnd):
+            if (isinstance(e.right, ast.Constant) and isinstance(e.right.value, int) and e.right.value > 0
+                    and (e.right.value & (e.right.value + 1)) == 0):
+                return f"({nat_expr(e.left)} % {e.right.value + 1})"
+            return f"({nat_expr(e.left)} &&& {nat_expr(e.right)})"
+        sym = {ast.Add: "+", ast.Sub: "-", ast.Mult: "*", ast.FloorDiv: "/", ast.Mod: "%",
+               ast.LShift: "<<<", ast.RShift: ">>>", ast.BitOr: "|||"}.get(type(e.op))
+        if sym is None:
+            raise P.Untranslatable("nat binop " + type(e.op).__name__)
+        return f"({nat_expr(e.left)} {sym} {nat_expr(e.right)})"
+    if isinstance(e, ast.Call) and isinstance(e.func, ast.Name) and e.func.id in ("max", "min") \
+            and len(e.args) == 2 and not e.keywords:
+        return f"({e.func.id} {nat_expr(e.args[0])} {nat_expr(e.args[1])})"
+    if isinstance(e, ast.Call) and isinstance(e.func, ast.Name) and e.func.id == "int" and len(e.args) == 1:
+        return nat_expr(e.args[0])
+    raise P.Untranslatable("nat expression " + ast.dump(e)[:80])
+
+
+def nat_cond(e: ast.expr) -> str:
+    if isinstance(e, ast.Compare):
+        parts, left = [], e.left
+        for op, right in zip(e.ops, e.comparators):
+            sym = {ast.Lt: "<", ast.LtE: "≤", ast.Gt: ">", ast.GtE: "≥", ast.Eq: "=", ast.NotEq: "≠"}.get(type(op))
+            if sym is None:
+                raise P.Untranslatable("nat comparison " + type(op).__name__)
+            parts.append(f"decide ({nat_expr(left)} {sym} {nat_expr(right)})")
+            left = right
+        return "(" + " && ".join(parts) + ")"
+    raise P.Untranslatable("nat condition " + ast.dump(e)[:80])
+
+
+def free_names(e: ast.AST):
+    out = []
+    for n in ast.walk(e):
+        if isinstance(n, ast.Name) and n.id not in ("max", "min", "int", "self") and n.id not in out:
+            out.append(n.id)
+        if isinstance(n, ast.Attribute) and isinstance(n.value, ast.Name) and n.value.id == "self" and n.attr not in out:
+            out.append(n.attr)
+    # ast.walk is breadth-first: order by source position instead
+    pos = {}
+    for n in ast.walk(e):
+        if isinstance(n, ast.Name) and n.id in out:
+            pos.setdefault(n.id, (n.lineno, n.col_offset))
+        if isinstance(n, ast.Attribute) and isinstance(n.value, ast.Name) and n.value.id == "self" and n.attr in out:
+            pos.setdefault(n.attr, (n.lineno, n.col_offset))
+    return sorted(out, key=lambda k: pos[k])
+
+
+def nat_def(name: str, e: ast.expr, params=None, cond=False) -> str:
+    ps = params if params is not None else free_names(e)
+    for n in free_names(e):
+        if n not in ps:
+            raise P.Untranslatable(f"{name}: unexpected variable {n}")
+    sig = " ".join(f"({p} : Nat)" for p in ps)
+    return f"def {name} {sig} : {'Bool' if cond else 'Nat'} := {nat_cond(e) if cond else nat_expr(e)}\n"
+
+
+def is_self_attr(t: ast.expr, attr: str) -> bool:
+    return isinstance(t, ast.Attribute) and isinstance(t.value, ast.Name) and t.value.id == "self" and t.attr == attr
+
+
+def self_const(stmts, attr: str) -> int:
+    """the int constant of the unique statement `self.<attr> = <int>` among `stmts` (not nested)."""
+    found = [s.value.value for s in stmts
+             if isinstance(s, ast.Assign) and len(s.targets) == 1 and is_self_attr(s.targets[0], attr)
+             and isinstance(s.value, ast.Constant) and isinstance(s.value.value, int)]
+    if len(found) != 1:
+        raise P.Untranslatable(f"self.{attr} = <int> not found exactly once")
+    return found[0]
+
+
+def eq_const(test: ast.expr, var: str) -> int:
+    if (isinstance(test, ast.Compare) and isinstance(test.left, ast.Name) and test.left.id == var
+            and len(test.ops) == 1 and isinstance(test.ops[0], ast.Eq)
+            and isinstance(test.comparators[0], ast.Constant) and isinstance(test.comparators[0].value, int)):
+        return test.comparators[0].value
+    raise P.Untranslatable(f"not `{var} == <int>`: " + ast.dump(test)[:80])
+
+
+def gen_lzw(out):
+    mod = P.parse_file("pdfminer/lzw.py")
+    init = P.find_function(mod, "LZWDecoder.__init__")
+    out.append("\n-- lzw.py: LZWDecoder.__init__\n")
+    for attr in ("buff", "bpos", "nbits"):
+        out.append(f"def LZW_INIT_{attr.upper()} : Nat := {self_const(init.body, attr)}\n")
+    rb = P.find_function(mod, "LZWDecoder.readbits")
+    loops = [x for x in rb.body if isinstance(x, ast.While)]
+    if len(loops) != 1:
+        raise P.Untranslatable("readbits: one while loop expected")
+    body = [x for x in loops[0].body if not (isinstance(x, ast.Expr) and isinstance(x.value, ast.Constant))]
+    if not (len(body) == 2 and isinstance(body[0], ast.Assign) and isinstance(body[0].targets[0], ast.Name)
+            and body[0].targets[0].id == "r" and isinstance(body[1], ast.If)):
+        raise P.Untranslatable("readbits: `r = ...; if bits <= r: ... else: ...` expected")
+    out.append("-- lzw.py: LZWDecoder.readbits\n")
+    out.append(nat_def("lzwAvail", body[0].value, ["bpos"]))
+    out.append(nat_def("lzwFits", body[1].test, ["bits", "r"], cond=True))
+    def v_assign(stmts):
+        vs = [x.value for x in stmts if isinstance(x, ast.Assign) and isinstance(x.targets[0], ast.Name)
+              and x.targets[0].id == "v"]
+        if len(vs) != 1:
+            raise P.Untranslatable("readbits: one `v = ...` per branch expected")
+        return vs[0]
+    out.append(nat_def("lzwTakeAll", v_assign(body[1].body), ["v", "bits", "buff", "r"]))
+    out.append(nat_def("lzwTakePart", v_assign(body[1].orelse), ["v", "r", "buff"]))
+    feed = P.find_function(mod, "LZWDecoder.feed")
+    ifs = [s for s in feed.body if isinstance(s, ast.If)]
+    if len(ifs) != 1:
+        raise P.Untranslatable("feed: expected one if chain")
+    top = ifs[0]
+    clear = eq_const(top.test, "code")
+    # table = [bytes((c,)) for c in range(N)] followed by k × table.append(None)
+    nlit, nnone = None, 0
+    for s in top.body:
+        if (isinstance(s, ast.Assign) and is_self_attr(s.targets[0], "table") and isinstance(s.value, ast.ListComp)
+                and len(s.value.generators) == 1):
+            it = s.value.generators[0].iter
+            if (isinstance(it, ast.Call) and isinstance(it.func, ast.Name) and it.func.id == "range"
+                    and len(it.args) == 1 and isinstance(it.args[0], ast.Constant)):
+                nlit = it.args[0].value
+        if (isinstance(s, ast.Expr) and isinstance(s.value, ast.Call) and isinstance(s.value.func, ast.Attribute)
+                and s.value.func.attr == "append" and is_self_attr(s.value.func.value, "table")
+                and len(s.value.args) == 1 and isinstance(s.value.args[0], ast.Constant)
+                and s.value.args[0].value is None):
+            nnone += 1
+    if nlit is None:
+        raise P.Untranslatable("feed: initial table comprehension not found")
+    reset = self_const(top.body, "nbits")
+    if len(top.orelse) != 1 or not isinstance(top.orelse[0], ast.If):
+        raise P.Untranslatable("feed: elif code == EOD expected")
+    second = top.orelse[0]
+    eod = eq_const(second.test, "code")
+    if not (len(second.body) == 1 and isinstance(second.body[0], ast.Pass)):
+        raise P.Untranslatable("feed: the EOD branch is no longer `pass`")
+    # the width schedule: if table_length == K: self.nbits = N elif ...
+    sched = []
+    chain = None
+    for n in ast.walk(second):
+        if isinstance(n, ast.If):
+            try:
+                eq_const(n.test, "table_length")
+            except P.Untranslatable:
+                continue
+            chain = n
+            break
+    if chain is None:
+        raise P.Untranslatable("feed: width schedule not found")
+    while True:
+        sched.append((eq_const(chain.test, "table_length"), self_const(chain.body, "nbits")))
+        if len(chain.body) != 1:
+            raise P.Untranslatable("feed: width branch does more than set nbits")
+        if not chain.orelse:
+            break
+        if len(chain.orelse) != 1 or not isinstance(chain.orelse[0], ast.If):
+            raise P.Untranslatable("feed: width schedule has an else branch")
+        chain = chain.orelse[0]
+    out.append("-- lzw.py: LZWDecoder.feed\n")
+    out.append(f"def LZW_CLEAR : Nat := {clear}\n")
+    out.append(f"def LZW_EOD : Nat := {eod}\n")
+    out.append(f"def LZW_LITERALS : Nat := {nlit}\n")
+    out.append(f"def LZW_FIRST_FREE : Nat := {nlit + nnone}\n")
+    out.append(f"def LZW_NBITS_RESET : Nat := {reset}\n")
+    body = "".join(f"if tableLength == {k} then {n} else " for k, n in sched) + "nbits"
+    out.append(f"def nbitsAfter (nbits tableLength : Nat) : Nat :=\n  {body}\n")
+
+
+def gen_rl(out):
+    mod = P.parse_file("pdfminer/runlength.py")
+    fn = P.find_function(mod, "rldecode")
+    loops = [s for s in fn.body if isinstance(s, ast.While)]
+    if len(loops) != 1:
+        raise P.Untranslatable("rldecode: one while loop expected")
+    body = loops[0].body
+    if len(body) != 4:
+        raise P.Untranslatable("rldecode: loop body changed shape")
+    a, b, c, d = body
+    # length = next(data_iter, EOD)
+    if not (isinstance(a, ast.Assign) and isinstance(a.value, ast.Call) and isinstance(a.value.func, ast.Name)
+            and a.value.func.id == "next" and len(a.value.args) == 2 and isinstance(a.value.args[1], ast.Constant)):
+        raise P.Untranslatable("rldecode: length = next(data_iter, <int>) expected")
+    out.append("\n-- runlength.py: rldecode\n")
+    out.append(f"def RL_EOF_DEFAULT : Nat := {a.value.args[1].value}\n")
+    if not (isinstance(b, ast.If) and len(b.body) == 1 and isinstance(b.body[0], ast.Break) and not b.orelse):
+        raise P.Untranslatable("rldecode: if length == EOD: break expected")
+    out.append(f"def RL_EOD : Nat := {eq_const(b.test, 'length')}\n")
+    if not (isinstance(c, ast.If) and not c.orelse and isinstance(d, ast.If) and not d.orelse):
+        raise P.Untranslatable("rldecode: two plain ifs expected")
+    out.append(nat_def("rlIsLiteral", c.test, ["length"], cond=True))
+    rng = [n for n in ast.walk(c) if isinstance(n, ast.Call) and isinstance(n.func, ast.Name) and n.func.id == "range"]
+    if len(rng) != 1 or len(rng[0].args) != 1:
+        raise P.Untranslatable("rldecode: range(length + 1) expected")
+    out.append(nat_def("rlLiteralCount", rng[0].args[0], ["length"]))
+    out.append(nat_def("rlIsRepeat", d.test, ["length"], cond=True))
+    mul = [n for n in ast.walk(d) if isinstance(n, ast.BinOp) and isinstance(n.op, ast.Mult)
+           and isinstance(n.left, ast.List)]
+    if len(mul) != 1:
+        raise P.Untranslatable("rldecode: [next(data_iter)] * (N - length) expected")
+    out.append(nat_def("rlRepeatCount", mul[0].right, ["length"]))
+
+
+def find_local_assign(fn: ast.FunctionDef, name: str) -> ast.expr:
+    found = [s.value for s in ast.walk(fn) if isinstance(s, ast.Assign) and len(s.targets) == 1
+             and isinstance(s.targets[0], ast.Name) and s.targets[0].id == name]
+    if len(found) != 1:
+        raise P.Untranslatable(f"{fn.name}: `{name} = …` not found exactly once")
+    return found[0]
+
+
+def gen_pred(out, mod):
+    png = P.find_function(mod, "apply_png_predictor")
+    out.append("\n-- utils.py: apply_png_predictor\n")
+    first = [s for s in png.body if isinstance(s, ast.If)][0]
+    t = first.test
+    if not (isinstance(t, ast.Compare) and isinstance(t.ops[0], ast.NotIn) and isinstance(t.comparators[0], ast.List)
+            and any(isinstance(s, ast.Raise) for s in first.body)):
+        raise P.Untranslatable("apply_png_predictor: `if bitspercomponent not in [...]: raise` expected")
+    out.append("def PNG_BPC : List Nat := [" + ", ".join(str(P.literal(x)) for x in t.comparators[0].elts) + "]\n")
+    out.append(nat_def("pngNbytes", find_local_assign(png, "nbytes"), ["colors", "columns", "bitspercomponent"]))
+    out.append(nat_def("pngBpp", find_local_assign(png, "bpp"), ["colors", "bitspercomponent"]))
+    loops = [s for s in png.body if isinstance(s, ast.For)]
+    if len(loops) != 1:
+        raise P.Untranslatable("apply_png_predictor: one row loop expected")
+    chain = [s for s in loops[0].body if isinstance(s, ast.If)]
+    if not chain:
+        raise P.Untranslatable("apply_png_predictor: filter type chain not found")
+    node, types = chain[0], []
+    while True:
+        ft = eq_const(node.test, "filter_type")
+        types.append(ft)
+        raws = [s.value for s in ast.walk(ast.Module(body=node.body, type_ignores=[]))
+                if isinstance(s, ast.Assign) and isinstance(s.targets[0], ast.Name) and s.targets[0].id == "raw_x"]
+        if ft == 0:
+            if raws:
+                raise P.Untranslatable("filter type 0 computes raw_x")
+        else:
+            if len(raws) != 1:
+                raise P.Untranslatable(f"filter type {ft}: one raw_x formula expected")
+            out.append(nat_def(f"pngRaw{ft}", raws[0]))
+        if len(node.orelse) == 1 and isinstance(node.orelse[0], ast.If):
+            node = node.orelse[0]
+        else:
+            break
+    out.append("def PNG_FILTER_TYPES : List Nat := [" + ", ".join(map(str, types)) + "]\n")
+    tiff = P.find_function(mod, "apply_tiff_predictor")
+    out.append("\n-- utils.py: apply_tiff_predictor\n")
+    first = [s for s in tiff.body if isinstance(s, ast.If)][0]
+    t = first.test
+    if not (isinstance(t, ast.Compare) and isinstance(t.ops[0], ast.NotEq) and isinstance(t.comparators[0], ast.Constant)):
+        raise P.Untranslatable("apply_tiff_predictor: `if bitspercomponent != N` expected")
+    out.append(f"def TIFF_BPC : Nat := {t.comparators[0].value}\n")
+    out.append(nat_def("tiffBpp", find_local_assign(tiff, "bpp"), ["colors", "bitspercomponent"]))
+    out.append(nat_def("tiffNbytes", find_local_assign(tiff, "nbytes"), ["columns", "bpp"]))
+    inner = [n for n in ast.walk(tiff) if isinstance(n, ast.If) and n is not first]
+    if len(inner) != 1:
+        raise P.Untranslatable("apply_tiff_predictor: one inner if expected")
+    out.append(nat_def("tiffHasLeft", inner[0].test, ["i", "bpp"], cond=True))
+    mods = [s for s in inner[0].body if isinstance(s, ast.AugAssign) and isinstance(s.op, ast.Mod)
+            and isinstance(s.value, ast.Constant)]
+    if len(mods) != 1:
+        raise P.Untranslatable("apply_tiff_predictor: `new_value %= N` expected")
+    out.append(f"def TIFF_MOD : Nat := {mods[0].value.value}\n")
+
+
+def gen_parser(out):
+    """pdfparser.py, `stream` branch of PDFParser.do_keyword: the end marker searched for in the lines after
+    the Length bytes and the clamp of Length to the file."""
+    mod = P.parse_file("pdfminer/pdfparser.py")
+    fn = P.find_function(mod, "PDFParser.do_keyword")
+    marks = []
+    for n in ast.walk(fn):
+        if (isinstance(n, ast.Compare) and len(n.ops) == 1 and isinstance(n.ops[0], ast.In)
+                and isinstance(n.left, ast.Constant) and isinstance(n.left.value, bytes)
+                and isinstance(n.comparators[0], ast.Name) and n.comparators[0].id == "line"):
+            marks.append(n.left.value)
+        if (isinstance(n, ast.Call) and isinstance(n.func, ast.Attribute) and n.func.attr == "index"
+                and isinstance(n.func.value, ast.Name) and n.func.value.id == "line" and len(n.args) == 1
+                and isinstance(n.args[0], ast.Constant) and isinstance(n.args[0].value, bytes)):
+            marks.append(n.args[0].value)
+    if len(marks) != 2 or marks[0] != marks[1]:
+        raise P.Untranslatable("do_keyword: `b\"…\" in line` and `line.index(b\"…\")` with one marker expected")
+    out.append("\n-- pdfparser.py: PDFParser.do_keyword, `stream` branch\n")
+    out.append("def ENDSTREAM_MARK : Bytes := " + P.lean_bytes(marks[0]) + "\n")
+    clamps = [s.value for s in ast.walk(fn) if isinstance(s, ast.Assign) and len(s.targets) == 1
+              and isinstance(s.targets[0], ast.Name) and s.targets[0].id == "objlen"
+              and isinstance(s.value, ast.Call) and isinstance(s.value.func, ast.Name)
+              and s.value.func.id == "min"]
+    if len(clamps) != 1:
+        raise P.Untranslatable("do_keyword: one `objlen = min(max(...), ...)` expected")
+    e = clamps[0]
+    for n in ast.walk(e):
+        if isinstance(n, ast.Name) and n.id == "end":
+            n.id = "fend"
+    names = free_names(e)
+    if sorted(names) != ["fend", "objlen", "pos"]:
+        raise P.Untranslatable("do_keyword: clamp uses " + repr(names))
+    tr = P.FuncTranslator({}, default_kind="int")
+    for n in names:
+        tr.env[n] = "int"
+    out.append(f"def streamClamp (objlen fend pos : Int) : Int := {tr.expr(e, 'int')}\n")
+
+
+def gen_ascii85(out):
+    """ascii85.py: the three regex sources (the hand model implements exactly these patterns; a changed pattern
+    breaks `a85_ahx_translated`), the EOD byte / pad digit / odd test of asciihexdecode, and the fact that
+    base64.a85decode is called with its defaults."""
+    mod = P.parse_file("pdfminer/ascii85.py")
+    out.append("\n-- ascii85.py\n")
+    for py, lean in (("start_re", "A85_START_RE"), ("end_re", "A85_END_RE"), ("bws_re", "AHX_WS_RE")):
+        e = P.find_assign(mod, py)
+        if not (isinstance(e, ast.Call) and isinstance(e.func, ast.Attribute) and e.func.attr == "compile"
+                and len(e.args) == 1 and not e.keywords and isinstance(e.args[0], ast.Constant)
+                and isinstance(e.args[0].value, bytes)):
+            raise P.Untranslatable(f"{py} is not re.compile(rb\"...\") without flags")
+        out.append(f"def {lean} : Bytes := " + P.lean_bytes(e.args[0].value) + "\n")
+    fn = P.find_function(mod, "ascii85decode")
+    subs = [s.value.func.value.id for s in fn.body if isinstance(s, ast.Assign) and isinstance(s.value, ast.Call)
+            and isinstance(s.value.func, ast.Attribute) and s.value.func.attr == "sub"
+            and isinstance(s.value.func.value, ast.Name)]
+    ret = [s for s in fn.body if isinstance(s, ast.Return)]
+    if subs != ["start_re", "end_re"] or len(ret) != 1:
+        raise P.Untranslatable("ascii85decode: start_re.sub, end_re.sub, return a85decode(data) expected")
+    r = ret[0].value
+    if not (isinstance(r, ast.Call) and isinstance(r.func, ast.Name) and r.func.id == "a85decode"
+            and len(r.args) == 1 and not r.keywords):
+        raise P.Untranslatable("ascii85decode: a85decode(data) with default options expected")
+    out.append("def A85DECODE_EXTRA_ARGS : Nat := 0\n")
+    fn = P.find_function(mod, "asciihexdecode")
+    finds = [n for n in ast.walk(fn) if isinstance(n, ast.Call) and isinstance(n.func, ast.Attribute)
+             and n.func.attr == "find" and len(n.args) == 1 and isinstance(n.args[0], ast.Constant)]
+    pads = [n for n in ast.walk(fn) if isinstance(n, ast.AugAssign) and isinstance(n.op, ast.Add)
+            and isinstance(n.value, ast.Constant) and isinstance(n.value.value, bytes)]
+    odd = [n for n in ast.walk(fn) if isinstance(n, ast.If) and isinstance(n.test, ast.Compare)
+           and isinstance(n.test.left, ast.BinOp)]
+    if len(finds) != 1 or len(pads) != 1 or len(odd) != 1:
+        raise P.Untranslatable("asciihexdecode changed shape")
+    out.append("def AHX_EOD : Bytes := " + P.lean_bytes(finds[0].args[0].value) + "\n")
+    out.append("def AHX_PAD : Bytes := " + P.lean_bytes(pads[0].value.value) + "\n")
+    out.append(nat_def("ahxNeedsPad", odd[0].test, ["idx"], cond=True))
+
+
+def gen_predictor_dispatch(out, tmod):
+    """pdftypes.py, PDFStream._decode: the `if pred == 1 / elif pred == 2 / elif pred >= 10 / else` chain (branch
+    kind: 0 = no predictor, 1 = apply_tiff_predictor, 2 = apply_png_predictor, 3 = raise) and the defaults of
+    Colors / Columns / BitsPerComponent in the TIFF and the PNG branch."""
+    fn = P.find_function(tmod, "PDFStream._decode")
+    chain = None
+    for n in ast.walk(fn):
+        if isinstance(n, ast.If) and isinstance(n.test, ast.Compare) and isinstance(n.test.left, ast.Name) \
+                and n.test.left.id == "pred":
+            chain = n
+            break
+    if chain is None:
+        raise P.Untranslatable("_decode: predictor chain not found")
+
+    def branch_kind(body):
+        calls = [c.func.id for st in body for c in ast.walk(st)
+                 if isinstance(c, ast.Call) and isinstance(c.func, ast.Name)
+                 and c.func.id in ("apply_tiff_predictor", "apply_png_predictor")]
+        if len(body) == 1 and isinstance(body[0], ast.Pass):
+            return 0, None
+        if any(isinstance(st, ast.Raise) for st in body) and not calls:
+            return 3, None
+        if calls == ["apply_tiff_predictor"] or calls == ["apply_png_predictor"]:
+            dflt = {}
+            for st in body:
+                for c in ast.walk(st):
+                    if (isinstance(c, ast.Call) and isinstance(c.func, ast.Attribute) and c.func.attr == "get"
+                            and isinstance(c.func.value, ast.Name) and c.func.value.id == "params" and len(c.args) == 2
+                            and isinstance(c.args[0], ast.Constant) and isinstance(c.args[1], ast.Constant)):
+                        dflt[c.args[0].value] = c.args[1].value
+            if sorted(dflt) != ["BitsPerComponent", "Colors", "Columns"]:
+                raise P.Untranslatable("_decode: predictor branch reads " + repr(sorted(dflt)))
+            return (1 if calls[0] == "apply_tiff_predictor" else 2), dflt
+        raise P.Untranslatable("_decode: predictor branch not understood")
+
+    parts, defaults = [], {}
+    node = chain
+    while True:
+        k, d = branch_kind(node.body)
+        if d is not None:
+            defaults[k] = d
+        parts.append(f"if {nat_cond(node.test)} then {k} else ")
+        if len(node.orelse) == 1 and isinstance(node.orelse[0], ast.If):
+            node = node.orelse[0]
+            continue
+        k, d = branch_kind(node.orelse)
+        if d is not None:
+            defaults[k] = d
+        parts.append(str(k))
+        break
+    out.append("\n-- pdftypes.py: PDFStream._decode, predictor dispatch\n")
+    out.append("def predKind (pred : Nat) : Nat := " + "".join(parts) + "\n")
+    for k, nm in ((1, "TIFF"), (2, "PNG")):
+        if k not in defaults:
+            raise P.Untranslatable(f"_decode: no {nm} predictor branch")
+        d = defaults[k]
+        out.append(f"def PRED_{nm}_DEFAULTS : Nat × Nat × Nat := ({d['Colors']}, {d['Columns']}, {d['BitsPerComponent']})\n")
+
+
+def gen_cpython_a85(out):
+    """base64.a85decode of the RUNNING interpreter (the function ascii85decode calls): defaults of its options,
+    the padding trick, the digit range, group length, radix/offset, the `z` group and the final padding."""
+    import base64
+    import inspect
+    import textwrap
+    try:
+        src = textwrap.dedent(inspect.getsource(base64.a85decode))
+    except (OSError, TypeError) as e:
+        raise P.Untranslatable("base64.a85decode has no Python source: %r" % (e,))
+    fn = ast.parse(src).body[0]
+    if not isinstance(fn, ast.FunctionDef) or fn.name != "a85decode":
+        raise P.Untranslatable("base64.a85decode: unexpected source")
+    kw = {a.arg: d for a, d in zip(fn.args.kwonlyargs, fn.args.kw_defaults)}
+    if sorted(kw) != ["adobe", "foldspaces", "ignorechars"]:
+        raise P.Untranslatable("base64.a85decode: options " + repr(sorted(kw)))
+    out.append("\n-- CPython base64.a85decode (source of the running interpreter)\n")
+    out.append(f"def A85_FOLDSPACES : Bool := {'true' if P.literal(kw['foldspaces']) else 'false'}\n")
+    out.append(f"def A85_ADOBE : Bool := {'true' if P.literal(kw['adobe']) else 'false'}\n")
+    out.append("def A85_IGNORECHARS : Bytes := " + P.lean_bytes(P.literal(kw["ignorechars"])) + "\n")
+    loops = [x for x in fn.body if isinstance(x, ast.For)]
+    if len(loops) != 1:
+        raise P.Untranslatable("base64.a85decode: one main loop expected")
+    loop = loops[0]
+    it = loop.iter          # b + b'u' * 4
+    if not (isinstance(it, ast.BinOp) and isinstance(it.op, ast.Add) and isinstance(it.right, ast.BinOp)
+            and isinstance(it.right.op, ast.Mult) and isinstance(it.right.left, ast.Constant)
+            and isinstance(it.right.right, ast.Constant)):
+        raise P.Untranslatable("base64.a85decode: `for x in b + b'u' * 4` expected")
+    out.append("def A85_PAD : Bytes := " + P.lean_bytes(it.right.left.value * it.right.right.value) + "\n")
+    top = [x for x in loop.body if isinstance(x, ast.If)]
+    if len(top) != 1:
+        raise P.Untranslatable("base64.a85decode: if chain expected")
+    t = top[0].test       # b'!'[0] <= x <= b'u'[0]
+    def byte0(e):
+        if (isinstance(e, ast.Subscript) and isinstance(e.value, ast.Constant) and isinstance(e.value.value, bytes)
+                and isinstance(e.slice, ast.Constant) and e.slice.value == 0):
+            return e.value.value[0]
+        raise P.Untranslatable("base64.a85decode: b'c'[0] expected")
+    if not (isinstance(t, ast.Compare) and len(t.ops) == 2 and all(isinstance(o, ast.LtE) for o in t.ops)):
+        raise P.Untranslatable("base64.a85decode: digit range test")
+    out.append(f"def a85IsDigit (x : Nat) : Bool := (decide ({byte0(t.left)} ≤ x) && decide (x ≤ {byte0(t.comparators[1])}))\n")
+    inner = [x for x in top[0].body if isinstance(x, ast.If)]
+    if len(inner) != 1:
+        raise P.Untranslatable("base64.a85decode: `if len(curr) == N` expected")
+    g = inner[0].test
+    if not (isinstance(g, ast.Compare) and isinstance(g.ops[0], ast.Eq) and isinstance(g.comparators[0], ast.Constant)):
+        raise P.Untranslatable("base64.a85decode: group length test")
+    out.append(f"def A85_GROUP : Nat := {g.comparators[0].value}\n")
+    accs = [x.value for x in ast.walk(inner[0]) if isinstance(x, ast.Assign) and isinstance(x.targets[0], ast.Name)
+            and x.targets[0].id == "acc" and isinstance(x.value, ast.BinOp)]
+    if len(accs) != 1:
+        raise P.Untranslatable("base64.a85decode: acc = 85 * acc + (x - 33) expected")
+    out.append(nat_def("a85Step", accs[0], ["acc", "x"]))
+    z = top[0].orelse[0] if top[0].orelse and isinstance(top[0].orelse[0], ast.If) else None
+    if z is None or not (isinstance(z.test, ast.Compare) and isinstance(z.test.ops[0], ast.Eq)):
+        raise P.Untranslatable("base64.a85decode: `elif x == b'z'[0]` expected")
+    out.append(f"def A85_Z : Nat := {byte0(z.test.comparators[0])}\n")
+    zs = [c.args[0].value for st in z.body for c in ast.walk(st) if isinstance(c, ast.Call) and len(c.args) == 1
+          and isinstance(c.args[0], ast.Constant) and isinstance(c.args[0].value, bytes)]
+    if len(zs) != 1:
+        raise P.Untranslatable("base64.a85decode: z group output")
+    out.append("def A85_ZGROUP : Bytes := " + P.lean_bytes(zs[0]) + "\n")
+    pads = [x.value for x in fn.body if isinstance(x, ast.Assign) and isinstance(x.targets[0], ast.Name)
+            and x.targets[0].id == "padding"]
+    if len(pads) != 1 or not (isinstance(pads[0], ast.BinOp) and isinstance(pads[0].op, ast.Sub)
+                               and isinstance(pads[0].left, ast.Constant)):
+        raise P.Untranslatable("base64.a85decode: padding = 4 - len(curr) expected")
+    out.append(f"def a85Padding (ncurr : Nat) : Nat := ({pads[0].left.value} - ncurr)\n")
+
+
+def gen_get_filters_keys(out, tmod):
+    """pdftypes.py, PDFStream.get_filters: the key tuples handed to get_any (first key present wins)."""
+    fn = P.find_function(tmod, "PDFStream.get_filters")
+    tuples = {}
+    for st in fn.body:
+        if isinstance(st, ast.Assign) and isinstance(st.targets[0], ast.Name) and st.targets[0].id in ("filters", "params"):
+            calls = [c for c in ast.walk(st.value) if isinstance(c, ast.Call) and isinstance(c.func, ast.Attribute)
+                     and c.func.attr == "get_any"]
+            if len(calls) == 1 and calls[0].args and isinstance(calls[0].args[0], ast.Tuple):
+                tuples.setdefault(st.targets[0].id, [P.literal(x) for x in calls[0].args[0].elts])
+    if sorted(tuples) != ["filters", "params"]:
+        raise P.Untranslatable("get_filters: get_any((..keys..)) for filters and params expected")
+    out.append("\n-- pdftypes.py: PDFStream.get_filters\n")
+    out.append("def FILTER_KEYS : List Bytes := [" + ", ".join(P.lean_bytes(k.encode("latin-1")) for k in tuples["filters"]) + "]\n")
+    out.append("def PARMS_KEYS : List Bytes := [" + ", ".join(P.lean_bytes(k.encode("latin-1")) for k in tuples["params"]) + "]\n")
+
+
 def generate(lean_dir: str):
-    out = [P.HEADER.format(src="pdfminer/utils.py, pdfminer/pdftypes.py", ns="Filters")]
+    out = [P.HEADER.format(src="pdfminer/utils.py, pdfminer/pdftypes.py, pdfminer/lzw.py, pdfminer/runlength.py, pdfminer/pdfparser.py, pdfminer/ascii85.py", ns="Filters")]
     mod = P.parse_file("pdfminer/utils.py")
     fn = P.find_function(mod, "paeth_predictor")
     tr = P.FuncTranslator({}, default_kind="int")
@@ -45,6 +548,14 @@ def generate(lean_dir: str):
             raise P.Untranslatable("_DECODE_ERRORS element: " + ast.dump(x)[:60])
     out.append("def DECODE_ERRORS : List String := [" + ", ".join(P.lean_string(c) for c in classes) + "]\n")
     out.append("def LITERAL_CRYPT : Bytes := " + P.lean_bytes(lit_name(P.find_assign(tmod, "LITERAL_CRYPT"))) + "\n")
+    gen_lzw(out)
+    gen_rl(out)
+    gen_pred(out, mod)
+    gen_parser(out)
+    gen_predictor_dispatch(out, tmod)
+    gen_get_filters_keys(out, tmod)
+    gen_ascii85(out)
+    gen_cpython_a85(out)
     out.append("\nend PdfVerif.Gen.Filters\n")
     path = os.path.join(lean_dir, "PdfVerif", "Gen", "Filters.lean")
     P.write_if_changed(path, "".join(out))
